@@ -85,7 +85,27 @@ func GenC06(t *rapid.T) ScriptCase {
 	})
 	minLen := rapid.IntRange(1, maxSteps()/2).Draw(t, "minlen")
 	c.Steps = rapid.SliceOfN(step, minLen, maxSteps()).Draw(t, "steps")
+	c.Burst = genBurst(t)
+	addIdle(t, &c)
 	return c
+}
+
+// one script in 25 contains a pause longer than the server's (scaled) 30 s read timeout
+func addIdle(t *rapid.T, c *ScriptCase) {
+	if rapid.IntRange(0, 24).Draw(t, "idle") != 0 {
+		return
+	}
+	at := rapid.IntRange(0, len(c.Steps)).Draw(t, "idleat")
+	st := Step{Op: "idle", IdleMs: rapid.IntRange(320, 420).Draw(t, "idlems")}
+	c.Steps = append(c.Steps[:at], append([]Step{st}, c.Steps[at:]...)...)
+}
+
+// one script in 12 runs on top of 100..300 outstanding requests
+func genBurst(t *rapid.T) int {
+	if rapid.IntRange(0, 11).Draw(t, "burst") != 0 {
+		return 0
+	}
+	return rapid.OneOf(rapid.SampledFrom([]int{127, 128, 129, 130, 255, 256, 257}), rapid.IntRange(100, 300)).Draw(t, "burstn")
 }
 
 func GenC07(t *rapid.T) ScriptCase {
@@ -112,6 +132,7 @@ func GenC07(t *rapid.T) ScriptCase {
 	})
 	minLen := rapid.IntRange(2, maxSteps()/2).Draw(t, "minlen")
 	c.Steps = rapid.SliceOfN(step, minLen, maxSteps()).Draw(t, "steps")
+	c.Burst = genBurst(t)
 	return c
 }
 
